@@ -10,7 +10,7 @@
    (evaluated on the regenerated constants in proofs/DocJsonSchemasP.v).  No proofs in this file. *)
 From Coq Require Import List Bool ZArith String Arith.
 Import ListNotations.
-From HV Require Import lib.Harness model.Schema model.SerialHugr.
+From HV Require Import lib.Harness model.Schema model.SchemaStrip model.SerialHugr.
 Open Scope string_scope.
 
 Section DocJson.
@@ -47,6 +47,8 @@ Definition pkg_json {sop md} (op_fields : sop -> obj) (md_fields : md -> obj)
   JObj [("modules", JArr (map (doc_json op_fields md_fields None) mods)); ("extensions", JArr exts)].
 
 (* ------------------------------------------------------------------ expected shapes of the definitions *)
+(* written WITHOUT annotations (title, description, default): the comparison with the published file erases them
+   (model/SchemaStrip.v), so an edit of a documentation string in the file does not concern these shapes *)
 Definition sch_type (t : string) : json := JObj [("type", JStr t)].
 Definition sch_int : json := sch_type "integer".
 Definition sch_optint : json := JObj [("anyOf", JArr [sch_int; sch_type "null"])].
@@ -54,40 +56,37 @@ Definition sch_port : json :=
   JObj [("maxItems", JNum 2); ("minItems", JNum 2); ("prefixItems", JArr [sch_int; sch_optint]); ("type", JStr "array")].
 Definition sch_edge : json :=
   JObj [("maxItems", JNum 2); ("minItems", JNum 2); ("prefixItems", JArr [sch_port; sch_port]); ("type", JStr "array")].
-Definition sch_version : json :=
-  JObj [("description", JStr "Serialisation Schema Version"); ("title", JStr "Version"); ("type", JStr "string")].
-Definition sch_nodes : json := JObj [("items", entry "OpType"); ("title", JStr "Nodes"); ("type", JStr "array")].
-Definition sch_edges : json := JObj [("items", sch_edge); ("title", JStr "Edges"); ("type", JStr "array")].
+Definition sch_array (items : json) : json := JObj [("items", items); ("type", JStr "array")].
+Definition sch_version : json := sch_type "string".
+Definition sch_nodes : json := sch_array (entry "OpType").
+Definition sch_edges : json := sch_array sch_edge.
 Definition sch_mditem : json := JObj [("anyOf", JArr [sch_type "object"; sch_type "null"])].
-Definition sch_meta : json :=
-  JObj [("anyOf", JArr [JObj [("items", sch_mditem); ("type", JStr "array")]; sch_type "null"]);
-        ("default", JNull); ("title", JStr "Metadata")].
-Definition sch_encoder : json :=
-  JObj [("anyOf", JArr [sch_type "string"; sch_type "null"]); ("default", JNull);
-        ("description", JStr "The name of the encoder used to generate the Hugr."); ("title", JStr "Encoder")].
+Definition sch_meta : json := JObj [("anyOf", JArr [sch_array sch_mditem; sch_type "null"])].
+Definition sch_encoder : json := JObj [("anyOf", JArr [sch_type "string"; sch_type "null"])].
 Definition shape_SerialHugr_members : obj :=
   [("additionalProperties", JBool false);
-   ("description", JStr "A serializable representation of a Hugr.");
    ("properties", JObj [("version", sch_version); ("nodes", sch_nodes); ("edges", sch_edges);
                         ("metadata", sch_meta); ("encoder", sch_encoder)]);
    ("required", JArr [JStr "version"; JStr "nodes"; JStr "edges"]);
-   ("title", JStr "Hugr"); ("type", JStr "object")].
+   ("type", JStr "object")].
 Definition shape_SerialHugr : json := JObj shape_SerialHugr_members.
 
-Definition sch_modules : json := JObj [("items", entry "SerialHugr"); ("title", JStr "Modules"); ("type", JStr "array")].
-Definition sch_extensions : json := JObj [("items", entry "Extension"); ("title", JStr "Extensions"); ("type", JStr "array")].
+Definition sch_modules : json := sch_array (entry "SerialHugr").
+Definition sch_extensions : json := sch_array (entry "Extension").
 Definition shape_Package_members : obj :=
   [("properties", JObj [("modules", sch_modules); ("extensions", sch_extensions)]);
-   ("required", JArr [JStr "modules"]); ("title", JStr "Package"); ("type", JStr "object")].
+   ("required", JArr [JStr "modules"]); ("type", JStr "object")].
 Definition shape_Package : json := JObj shape_Package_members.
 
-(* definition `name` of the schema file `root` is the shape, up to norm and schema_equiv (key order, order of
-   `required`, "additionalProperties": true) *)
+(* what is compared: "additionalProperties": true and annotations erased *)
+Definition canon (s : json) : json := strip (norm s).
+(* definition `name` of the schema file `root` is the shape, up to canon and schema_equiv (key order, order of
+   `required`, "additionalProperties": true, annotations) *)
 Definition def_matches (root : json) (name : string) (shape : json) : bool :=
   match resolve root (ref_prefix ++ name) with
-  | Some s => schema_equiv (norm s) (norm shape)
+  | Some s => schema_equiv (canon s) (canon shape)
   | None => false
   end.
 (* schema_equiv is reflexive on the file (it is on every file without duplicate keys and unknown keywords;
    evaluated rather than proved) *)
-Definition self_equiv (root : json) : bool := schema_equiv (norm root) (norm root).
+Definition self_equiv (root : json) : bool := schema_equiv (canon root) (canon root).
